@@ -1,6 +1,6 @@
-(* Marlin open_combinations -> check_combinations: complete end to end, for combinations of polynomials without degree
-   bounds under distinct combination labels (same structure as the Sonic theorem; the verifier recomputes exactly the labelled
-   commitment the prover formed). *)
+(* Marlin open_combinations -> check_combinations: complete end to end, for every set of combinations under distinct labels on
+   which the prover succeeds - polynomials without degree bounds, or one degree-bounded polynomial alone with coefficient one
+   (same structure as the Sonic theorem; the verifier recomputes exactly the labelled commitment the prover formed). *)
 From Coq Require Import List Arith NArith Bool Lia Field Ring.
 From PC Require Import Base.Field Base.Result Base.Poly Base.OrdMap Proofs.PolyFacts Proofs.OrdMapFacts
      Schemes.KZG10 Schemes.LC Schemes.Marlin Schemes.MarlinLC Proofs.KZG10Facts Proofs.KZG10Binding Proofs.LCFacts
@@ -52,19 +52,51 @@ Section MarlinLCComplete.
       rewrite (IH ts _ eq_refl). cbn [bind fst snd map]. reflexivity.
   Qed.
 
+  (* ---- which combinations the prover accepts: polynomials without degree bounds, or one degree-bounded polynomial alone with
+     coefficient one (the bound policy refuses everything else) ---- *)
+  Lemma m_loop_num_ne1 (lm : list (N * (LPoly * MRand * LComm))) num : num <> 1%nat -> forall terms a a',
+    lc_prover_loop lm num terms a = Ok a' ->
+    forall co l lp st c, In (co, TPoly l) terms -> lookup N.compare l lm = Some (lp, st, c) -> lp_bound lp = None.
+  Proof.
+    intros Hn. induction terms as [|[c0 [|l]] t IH]; intros a a' H; cbn [lc_prover_loop] in H.
+    - intros ? ? ? ? ? [].
+    - intros co0 l0 lp st c [E|Hin]; [discriminate E|]. exact (IH _ _ H co0 l0 lp st c Hin).
+    - destruct (lookup N.compare l lm) as [[[lp st] cm]|] eqn:El; [|discriminate].
+      destruct (lp_bound lp) as [bb|] eqn:Eb.
+      + cbn [bound_policy] in H. destruct (Nat.eqb_spec num 1); [contradiction|]. cbn [bind] in H. discriminate.
+      + cbn [bound_policy bind] in H. intros co0 l0 lp0 st0 c [E|Hin] Hl0.
+        * injection E as _ <-. rewrite El in Hl0. injection Hl0 as <- _ _. exact Eb.
+        * exact (IH _ _ H co0 l0 lp0 st0 c Hin Hl0).
+  Qed.
+
+  Lemma m_prover_cases (lm : list (N * (LPoly * MRand * LComm))) terms a0 a : lc_prover_loop lm (length terms) terms a0 = Ok a ->
+    (forall co l lp st c, In (co, TPoly l) terms -> lookup N.compare l lm = Some (lp, st, c) -> lp_bound lp = None) \/
+    exists c0 l lp st c bb, terms = [(c0, TPoly l)] /\ feqb c0 f1 = true /\ lookup N.compare l lm = Some (lp, st, c) /\ lp_bound lp = Some bb.
+  Proof.
+    intros H. destruct terms as [|t1 [|t2 rest]].
+    - left. intros ? ? ? ? ? [].
+    - destruct t1 as [c0 [|l]].
+      + left. intros co0 l0 lp st c [E|[]]. discriminate E.
+      + cbn [length lc_prover_loop] in H.
+        destruct (lookup N.compare l lm) as [[[lp st] c]|] eqn:El; [|discriminate].
+        destruct (lp_bound lp) as [bb|] eqn:Eb.
+        * right. cbn [bound_policy Nat.eqb] in H. destruct (feqb c0 f1) eqn:Ec; [|discriminate].
+          exists c0, l, lp, st, c, bb. repeat split; assumption.
+        * left. intros co0 l0 lp0 st0 c1 [E|[]] Hl0. injection E as _ <-. rewrite El in Hl0. injection Hl0 as <- _ _. exact Eb.
+    - left. apply (m_loop_num_ne1 lm (length (t1 :: t2 :: rest))) with (a := a0) (a' := a); [cbn [length]; lia|exact H].
+  Qed.
+
   Theorem marlin_lc_complete lcs items cs qs ev chal vtape pfs rest :
     lm_honest ck g gam b D m (label_map items) ->
     ml_agree (label_map items) (comm_map cs) ->
     NoDup (map fst lcs) ->
-    (forall l co lab lp st c, In l lcs -> In (co, TPoly lab) (snd l) ->
-        lookup N.compare lab (label_map items) = Some (lp, st, c) -> lp_bound lp = None) ->
     (forall pl pt labels lab terms, In (pl, (pt, labels)) (group_queries qs) -> In lab labels -> In (lab, terms) lcs ->
         lookup qkey_cmp (lab, pt) (evals_map ev) = Some (lc_value (poly_of (label_map items) pt) terms)) ->
     (length (group_queries qs) <= length vtape)%nat ->
     mopen_combinations ck lcs items qs chal = Ok (pfs, rest) ->
     mcheck_combinations vk lcs cs qs ev pfs chal vtape = Ok (true, rest, length (group_queries qs)).
   Proof.
-    intros Hh Ha Hd Hnb Hcl Lt H. unfold mopen_combinations in H.
+    intros Hh Ha Hd Hcl Lt H. unfold mopen_combinations in H.
     set (lm := label_map items) in *.
     destruct (mapM (lc_prover_one lm) lcs) as [trip| |] eqn:Em; cbn [bind] in H; try discriminate.
     unfold mcheck_combinations. rewrite (m_verifier_all_follows lm (comm_map cs) Ha lcs trip _ Em). cbn [bind fst snd].
@@ -74,7 +106,19 @@ Section MarlinLCComplete.
               forall x, eval (lp_poly (fst (fst t))) x + lc_const (snd l) = lc_value (poly_of lm x) (snd l)).
     { intros l [[lp st] c] Hin. pose proof (I2 _ _ Hin) as Ep. cbn [fst snd].
       assert (Hl : In l lcs) by (eapply in_combine_l; exact Hin).
-      exact (lc_prover_one_unbounded ck g gam b D m lm l lp st c Hh (fun co lab lp' st' c' Ht Hlk => Hnb l co lab lp' st' c' Hl Ht Hlk) Ep). }
+      assert (Elab : lp_label lp = fst l /\ lc_label c = fst l).
+      { unfold lc_prover_one in Ep. destruct (lc_prover_loop lm (length (snd l)) (snd l) _) as [a| |]; cbn [bind] in Ep; try discriminate.
+        destruct (combine_commitments (pa_cc a) 0 None) as [cc cs0]. injection Ep as <- _ <-. split; reflexivity. }
+      assert (Ecases : (forall co lab lp' st' c', In (co, TPoly lab) (snd l) -> lookup N.compare lab lm = Some (lp', st', c') -> lp_bound lp' = None) \/
+                       exists c0 l1 lp1 st1 c1 bb, snd l = [(c0, TPoly l1)] /\ feqb c0 f1 = true /\ lookup N.compare l1 lm = Some (lp1, st1, c1) /\ lp_bound lp1 = Some bb).
+      { unfold lc_prover_one in Ep. destruct (lc_prover_loop lm (length (snd l)) (snd l) _) as [a| |] eqn:EL; cbn [bind] in Ep; try discriminate.
+        exact (m_prover_cases lm (snd l) _ a EL). }
+      destruct Ecases as [Hnb|(c0 & l1 & lp1 & st1 & c1 & bb & Et & Hc0 & El1 & Eb1)].
+      - exact (lc_prover_one_unbounded ck g gam b D m lm l lp st c Hh Hnb Ep).
+      - apply FL_eqb in Hc0. subst c0. destruct l as [lab0 terms0]. cbn [fst snd] in *. subst terms0.
+        destruct (lc_prover_one_bounded_single ck g gam b D m lm lab0 l1 lp1 st1 c1 bb lp st c Hh El1 Eb1 Ep) as (A1 & A2 & A4).
+        split; [exact A1|]. split; [exact (proj1 Elab)|]. split; [exact (proj2 Elab)|].
+        intros x. cbn [lc_const lc_value term_value]. unfold poly_of. rewrite El1, A4. ring. }
     assert (Hkeys : map fst (map (fun c : LComm => (lc_label c, c)) (map snd trip)) = map fst lcs).
     { rewrite !map_map. cbn [fst].
       assert (G : forall (ls : list lcomb) (ts : list (LPoly * MRand * LComm)),
